@@ -185,9 +185,9 @@ def run(ctx):
     if not q:
         cases += runner.sharded_tlc(ctx, "GenScen", CFG.format(profile="c04t", shard="@SHARD@", nshards="@NSHARDS@"),
                                     16, "GenScen_c04t", timeout=3000, simulate="num=4000", depth=30, seed=ctx.seed + 7)
-    sim = runner.sharded_tlc(ctx, "GenScen", CFG.format(profile="sim", shard="@SHARD@", nshards=1),
+    sim = runner.sharded_tlc(ctx, "GenScen", CFG.format(profile="sim", shard=0, nshards=1),
                              8 if q else 16, "GenScen_sim", timeout=900,
-                             simulate=f"num={150 if q else 2500}", depth=40, seed=ctx.seed + 3)
+                             simulate=f"num={25 if q else 400}", depth=40, seed=ctx.seed + 3)
     cases = dedup(cases)
     sim = dedup(sim)
     if not cases:
